@@ -13,3 +13,55 @@ pub fn idx(i: u16, len: usize) -> usize {
 pub fn cut(i: u16, len: usize) -> usize {
     ((i as usize) * (len + 1)) >> 16
 }
+
+/// Reads structured choices from a fuzzer's byte string (hand-written decoders for the coverage-guided campaigns:
+/// one byte or a few per choice, so that a local mutation of the bytes is a local mutation of the case). Once the
+/// bytes are used up every read yields 0 and `done()` turns true.
+pub struct ByteReader<'a> {
+    d: &'a [u8],
+    i: usize,
+}
+
+impl<'a> ByteReader<'a> {
+    pub fn new(d: &'a [u8]) -> Self {
+        ByteReader { d, i: 0 }
+    }
+    pub fn done(&self) -> bool {
+        self.i >= self.d.len()
+    }
+    pub fn u8(&mut self) -> u8 {
+        let v = self.d.get(self.i).copied().unwrap_or(0);
+        self.i += 1;
+        v
+    }
+    /// a u16 spread over the whole range from one byte (indices are mapped monotonically onto small sets)
+    pub fn ix(&mut self) -> u16 {
+        let b = self.u8() as u16;
+        (b << 8) | b
+    }
+    pub fn u16(&mut self) -> u16 {
+        let a = self.u8() as u16;
+        let b = self.u8() as u16;
+        a | (b << 8)
+    }
+    pub fn u32(&mut self) -> u32 {
+        self.u16() as u32 | ((self.u16() as u32) << 16)
+    }
+    pub fn u64(&mut self) -> u64 {
+        self.u32() as u64 | ((self.u32() as u64) << 32)
+    }
+    pub fn bool(&mut self) -> bool {
+        self.u8() & 1 == 1
+    }
+    /// uniform-ish choice in 0..n (n <= 256)
+    pub fn below(&mut self, n: usize) -> usize {
+        if n == 0 {
+            0
+        } else {
+            self.u8() as usize % n
+        }
+    }
+    pub fn pick<T: Clone>(&mut self, xs: &[T]) -> T {
+        xs[self.below(xs.len())].clone()
+    }
+}
